@@ -21,6 +21,7 @@ EXPLANATION = ("Key-domain inclusion: a dict built by a comprehension filtered o
                "numeric arms of _pows and _cross are the same comprehension skeleton up to the element operator; in the sparse "
                "path keys and values come from .keys()/.values() of the same dict and are crossed over the same term list.")
 EXPLANATION += ' R4: cardinality abstract interpretation of _pows (C(n+k-1,k) entries); R5: ABC dispatch/registrations and a stateless encoder.'
+EXPLANATION += ' R2 also: the term table is keyed by the list its powers are computed from; R5 also: no custom pickling / copy hooks.'
 
 ENC = "coba/encodings.py"
 
